@@ -54,7 +54,9 @@ func sentinelFor(t reflect.Type, seed string, sc Scope) reflect.Value {
 
 // ---------------------------------------------------------------- C17
 
-var runeAlphabet = []string{"a", "é", "€", "😀", "\xff"}
+// one piece per encoding class: 1-4 byte runes, a stray byte, the replacement character
+// itself (a valid rune), a truncated sequence, an encoded surrogate, NUL
+var runeAlphabet = []string{"a", "é", "€", "😀", "\xff", "\uFFFD", "\xe2\x82", "\xed\xa0\x80", "\x00"}
 
 func allStrings(maxLen int) []string {
 	out := []string{""}
